@@ -33,7 +33,10 @@ RULE = ("path AST of depth <= 4 (iri, ^, /, |, * + ?, negated sets) x graph of <
         "non-trivial = non-empty answer or composite path.  Suite path_history: one Graph (or ConjunctiveGraph) object, 1-3 patterns "
         "re-evaluated between mutations (60% size-preserving remove+add, add, remove; Graph.add/remove or SPARQL INSERT DATA / DELETE DATA / "
         "DELETE..INSERT..WHERE {}), every evaluation judged against the triples present at that moment; non-trivial = at least two "
-        "evaluations, a mutation and a non-empty answer")
+        "evaluations, a mutation and a non-empty answer.  Suite path_in_graph: ConjunctiveGraph / Dataset (default_union on and off) with "
+        "different triples scattered over 2-3 named graphs and the default graph, a path pattern restricted to one graph by context= (Graph "
+        "object or name), quad pattern, `in`, the context graph itself or SPARQL GRAPH; judged against the relation over that graph's triples; "
+        "non-trivial = the requested graph holds fewer triples than the dataset")
 
 NODE_VOCAB = [1, 2, 12, 8, 13, 5, 6, 7, 10, 14]   # a b c _:b1 _:b2 "" 0 false "x" 0.0
 LITS = {5, 6, 7, 9, 10, 11, 14}
